@@ -29,7 +29,7 @@ func (x *X) EncLayouts() []EncAlt {
 			continue
 		}
 		as := x.enc(ret.Results[0], ret)
-		out = append(out, EncAlt{Ret: ret, Atoms: ExpandLits(as)})
+		out = append(out, EncAlt{Ret: ret, Atoms: x.mergeByteLanes(ExpandLits(as))})
 	}
 	return out
 }
@@ -78,6 +78,12 @@ func (x *X) enc(v ssa.Value, at ssa.Instruction) []Atom {
 			out := append([]Atom(nil), x.enc(cc.Args[1], t)...)
 			return append(out, x.valueAtom(cc.Args[2], w, order, t))
 		}
+		if recv, name, ok := builderMethod(t); ok && (name == "String" || name == "Bytes") {
+			if al, isA := recv.(*ssa.Alloc); isA {
+				return x.encBuilder(al, t)
+			}
+			return unknown(t.Pos(), "content of a builder that is not a local variable")
+		}
 		if copiesBytes(cc.StaticCallee()) && len(cc.Args) >= 1 {
 			return x.enc(cc.Args[0], t)
 		}
@@ -102,7 +108,16 @@ func (x *X) enc(v ssa.Value, at ssa.Instruction) []Atom {
 			return append(append([]Atom(nil), x.enc(bufArg, t)...), tail...)
 		}
 		return x.nested(t, t.Pos())
+	case *ssa.Lookup:
+		if _, isMap := t.X.Type().Underlying().(*types.Map); isMap && isByteSeq(t.Type()) {
+			return []Atom{{Kind: "bytes", Expr: "element of map " + x.exprString(t.X, 0), Val: t, Pos: t.Pos(), At: t}}
+		}
 	case *ssa.Extract:
+		if lk, ok := t.Tuple.(*ssa.Lookup); ok && t.Index == 0 && lk.CommaOk && isByteSeq(t.Type()) {
+			if _, isMap := lk.X.Type().Underlying().(*types.Map); isMap {
+				return []Atom{{Kind: "bytes", Expr: "element of map " + x.exprString(lk.X, 0), Val: t, Pos: t.Pos(), At: lk}}
+			}
+		}
 		if call, ok := t.Tuple.(*ssa.Call); ok && t.Index == 0 {
 			if tail, bufArg, ok := x.inlineAppender(call); ok {
 				if bufArg == nil {
@@ -179,6 +194,46 @@ func (x *X) nested(call *ssa.Call, pos token.Pos) []Atom {
 	if a.Callee == nil {
 		a.Expr = "dynamic call"
 	}
+	// an in-module producer that is not a codec unit and could not be analysed
+	// at its call site: can it at least be READ? If not, the bytes it yields
+	// are unknown to this extraction (the layout is incomplete there).
+	if f := a.Callee; f != nil && f.Blocks != nil && !cc.IsInvoke() && x.root().Units != nil && !x.isUnit(f) && x.W.P.InModule(f) {
+		switch {
+		case x.onStack(f):
+			a.Unread = "recursive producer " + FuncLabel(f)
+		case x.nestDepth() > 3:
+			a.Unread = "producers nested too deeply at " + FuncLabel(f)
+		default:
+			rt := x.root()
+			if rt.unread == nil {
+				rt.unread = map[*ssa.Function]*string{}
+			}
+			if m := rt.unread[f]; m != nil {
+				a.Unread = *m
+				break
+			}
+			memo := ""
+			rt.unread[f] = &memo
+			defer func() { memo = a.Unread }()
+			child := newX(x.W, f)
+			child.Parent = x
+			child.findRoots()
+			alts := child.EncLayouts()
+			if len(alts) == 0 {
+				a.Unread = FuncLabel(f) + ": no return with a constant nil error yields a byte sequence"
+			}
+			for _, alt := range alts {
+				if u, bad := HasUnknown(alt.Atoms); bad {
+					a.Unread = FuncLabel(f) + ": " + u.Expr
+				}
+				for _, b := range Flatten(alt.Atoms) {
+					if b.Kind == "nested" && b.Unread != "" {
+						a.Unread = b.Unread
+					}
+				}
+			}
+		}
+	}
 	if subject != nil {
 		subject = x.res(subject)
 		if p, ok := x.Path(subject); ok {
@@ -236,6 +291,7 @@ type bwrite struct {
 	off  int64
 	w    int64
 	atom Atom
+	loop *Loop // the write is made once per iteration of this unrolled loop (in = its header)
 }
 
 func (x *X) collectWrites(buf ssa.Value, base int64, out *[]bwrite, bad *string) {
@@ -249,7 +305,7 @@ func (x *X) collectWrites(buf ssa.Value, base int64, out *[]bwrite, bad *string)
 			cc := y.Common()
 			if kind, w, order := binCall(y); kind == "put" {
 				if cc.Args[1] == buf {
-					*out = append(*out, bwrite{y, base, int64(w), x.valueAtom(cc.Args[2], w, order, y)})
+					*out = append(*out, bwrite{in: y, off: base, w: int64(w), atom: x.valueAtom(cc.Args[2], w, order, y)})
 				}
 				continue
 			} else if kind != "" {
@@ -264,6 +320,12 @@ func (x *X) collectWrites(buf ssa.Value, base int64, out *[]bwrite, bad *string)
 				}
 				continue
 			}
+			if _, name, ok := builderMethod(y); ok && (name == "Write" || name == "WriteString") {
+				continue // the builder copies the bytes it is given
+			}
+			if cc.IsInvoke() && cc.Method.Name() == "Write" {
+				continue // io.Writer contract: Write does not modify or retain its argument
+			}
 			for _, a := range cc.Args {
 				if a == buf {
 					*bad = "buffer passed to " + x.exprString(y, 0)
@@ -272,16 +334,32 @@ func (x *X) collectWrites(buf ssa.Value, base int64, out *[]bwrite, bad *string)
 		case *ssa.Slice:
 			lo := int64(0)
 			if y.Low != nil {
-				k, ok := constI(y.Low)
+				k, ok := x.Sym(y.Low).Const()
 				if !ok {
-					*bad = "write through a variable-offset sub-slice"
+					// buf[2*i:] inside a loop over a constant table: one write per row
+					if !x.unrolledWrites(y, y.Low, func() { x.collectWrites(y, base+x.Sym(y.Low).K, out, bad) }, out, bad) {
+						*bad = "write through a variable-offset sub-slice"
+					}
 					continue
 				}
 				lo = k
 			}
 			x.collectWrites(y, base+lo, out, bad)
 		case *ssa.IndexAddr:
-			idx, ok := constI(y.Index)
+			idx, ok := x.Sym(y.Index).Const()
+			if !ok {
+				n0 := len(*out)
+				if x.unrolledWrites(y, y.Index, func() {
+					for _, rr := range *y.Referrers() {
+						if st, isSt := rr.(*ssa.Store); isSt && st.Addr == ssa.Value(y) {
+							*out = append(*out, bwrite{in: st, off: base + x.Sym(y.Index).K, w: 1, atom: x.valueAtom(st.Val, 1, "", st)})
+						}
+					}
+				}, out, bad) {
+					continue
+				}
+				*out = (*out)[:n0]
+			}
 			for _, rr := range *y.Referrers() {
 				st, isSt := rr.(*ssa.Store)
 				if !isSt || st.Addr != ssa.Value(y) {
@@ -291,7 +369,7 @@ func (x *X) collectWrites(buf ssa.Value, base int64, out *[]bwrite, bad *string)
 					*bad = "variable-index store into a fixed buffer"
 					continue
 				}
-				*out = append(*out, bwrite{st, base + idx, 1, x.valueAtom(st.Val, 1, "", st)})
+				*out = append(*out, bwrite{in: st, off: base + idx, w: 1, atom: x.valueAtom(st.Val, 1, "", st)})
 			}
 		case *ssa.Store:
 			if y.Val == buf && cellOf(y.Addr) && x.cellInfoOf(y.Addr).bad == "" {
@@ -309,6 +387,94 @@ func (x *X) collectWrites(buf ssa.Value, base int64, out *[]bwrite, bad *string)
 			*bad = "fixed buffer captured by a closure"
 		}
 	}
+}
+
+// unrolledWrites: `at` (a sub-slice or element address of a fixed buffer whose
+// offset `off` is not a constant) sits in a loop over a constant table — or a
+// counted loop with constant bounds — that runs N times; collect is run once
+// per iteration with the loop index (and the table reads) bound to that
+// iteration's values, where the offset must evaluate to a constant. The writes
+// collected are stamped with the loop header as their position: after the
+// loop, all N of them have happened (each must be unconditional inside an
+// iteration). Returns false when the shape is not this one.
+func (x *X) unrolledWrites(at ssa.Instruction, off ssa.Value, collect func(), out *[]bwrite, bad *string) bool {
+	l := x.LoopOf(at.Block())
+	if l == nil || x.unrolling[l] {
+		return false
+	}
+	hb := l.Header
+	it, ok := x.Iter(hb)
+	if !ok || it.From != nil {
+		return false
+	}
+	envs, ok := x.tableLoop(hb)
+	if !ok {
+		// a plain counted loop i = a..n-1 with constant bounds
+		n, isK := constI(it.Bound)
+		if !isK || n-it.FromK < 1 || n-it.FromK > 64 {
+			return false
+		}
+		envs = make([]map[ssa.Value]ssa.Value, n-it.FromK)
+		for k := range envs {
+			envs[k] = map[ssa.Value]ssa.Value{}
+		}
+	} else if it.FromK != 0 {
+		return false
+	}
+	if x.unrolling == nil {
+		x.unrolling = map[*Loop]bool{}
+	}
+	x.unrolling[l] = true
+	defer delete(x.unrolling, l)
+	n0 := len(*out)
+	good := true
+	for k, env := range envs {
+		saved := map[ssa.Value]ssa.Value{}
+		bind := func(key, val ssa.Value) {
+			saved[key] = x.env[key]
+			x.env[key] = val
+		}
+		for key, val := range env {
+			bind(key, val)
+		}
+		bind(it.Idx, ssa.NewConst(constant.MakeInt64(it.FromK+int64(k)), types.Typ[types.Int]))
+		if _, isK := x.Sym(off).Const(); !isK {
+			good = false
+		} else {
+			collect()
+		}
+		for key, val := range saved {
+			if val == nil {
+				delete(x.env, key)
+			} else {
+				x.env[key] = val
+			}
+		}
+		if !good {
+			break
+		}
+	}
+	if !good {
+		*out = (*out)[:n0]
+		return false
+	}
+	// every write happens in every iteration
+	for i := n0; i < len(*out); i++ {
+		wb := (*out)[i].in.Block()
+		if !l.Blocks[wb] {
+			*bad = "a write outside the loop through a view made inside it"
+			return true
+		}
+		for _, pr := range hb.Preds {
+			if hb.Dominates(pr) && !(wb == pr || wb.Dominates(pr)) {
+				*bad = "a write into the buffer that is conditional inside a loop"
+				return true
+			}
+		}
+		(*out)[i].in = hb.Instrs[0]
+		(*out)[i].loop = l
+	}
+	return true
 }
 
 // storedForConcat: the store puts a slice into the variadic argument array of
@@ -385,7 +551,7 @@ func (x *X) bufContent(buf ssa.Value, n int64, at ssa.Instruction) []Atom {
 								bad = "variable-index store into a literal"
 								continue
 							}
-							ws = append(ws, bwrite{st, idx, 1, x.valueAtom(st.Val, 1, "", st)})
+							ws = append(ws, bwrite{in: st, off: idx, w: 1, atom: x.valueAtom(st.Val, 1, "", st)})
 						}
 					}
 				}
@@ -394,6 +560,11 @@ func (x *X) bufContent(buf ssa.Value, n int64, at ssa.Instruction) []Atom {
 	}
 	if bad != "" {
 		return unknown(buf.Pos(), "%s", bad)
+	}
+	for _, w := range ws {
+		if w.loop != nil && w.loop.Blocks[at.Block()] {
+			return unknown(buf.Pos(), "the buffer is used inside the loop that fills it")
+		}
 	}
 	overlap := func(a, b bwrite) bool { return a.off < b.off+b.w && b.off < a.off+a.w }
 	covers := func(a, b bwrite) bool { return a.off <= b.off && b.off+b.w <= a.off+a.w }
@@ -410,7 +581,9 @@ func (x *X) bufContent(buf ssa.Value, n int64, at ssa.Instruction) []Atom {
 		for j := i + 1; j < len(dom); j++ {
 			if overlap(dom[j], w) {
 				if !covers(dom[j], w) {
-					return unknown(w.atom.Pos, "partially overlapping writes into a fixed buffer")
+					u := unknown(w.atom.Pos, "partially overlapping writes into a fixed buffer")
+					u[0].Definite = true
+					return u
 				}
 				killed = true
 			}
@@ -1398,7 +1571,10 @@ func (x *X) inlineAppender(call *ssa.Call) ([]Atom, ssa.Value, bool) {
 				}
 				out = append(out, a)
 			case "nested":
-				if a.Field == "" || a.Callee == nil {
+				// a codec unit applied to something that is not a field of the
+				// subject (a value built on the spot) is still a positive
+				// observation: the bytes are that unit's
+				if a.Callee == nil || (a.Field == "" && !x.isUnit(a.Callee)) {
 					return nil, false
 				}
 				out = append(out, a)
@@ -1671,7 +1847,13 @@ func (x *X) symBufContent(mk *ssa.MakeSlice, at ssa.Instruction) []Atom {
 	}
 	for i, w := range ws {
 		if !used[i] && x.domI(w.in, at) {
-			return unknown(w.in.Pos(), "writes into the buffer overlap or are not contiguous (one starts at %s, the previous ended at %s)", x.SymString(w.off), x.SymString(cur))
+			u := unknown(w.in.Pos(), "writes into the buffer overlap or are not contiguous (one starts at %s, the previous ended at %s)", x.SymString(w.off), x.SymString(cur))
+			// certainly before the end of what was already written: an overlap (one
+			// field is written over another), observed on a fully collected buffer
+			if x.nonNeg(cur.Sub(w.off).AddK(-1)) {
+				u[0].Definite = true
+			}
+			return u
 		}
 	}
 	rest := total.Sub(cur)
@@ -1681,6 +1863,127 @@ func (x *X) symBufContent(mk *ssa.MakeSlice, at ssa.Instruction) []Atom {
 		return unknown(mk.Pos(), "the writes end at %s but the buffer has %s bytes", x.SymString(cur), x.SymString(total))
 	case k > 0:
 		out = append(out, Atom{Kind: "pad", Width: int(k)})
+	}
+	return out
+}
+
+// byteLaneOf: v is byte k of an integer value: uint8(X >> 8k), possibly masked
+// with 0xFF. Returns X (conversions stripped) and the shift in bits.
+func (x *X) byteLaneOf(v ssa.Value) (ssa.Value, int64, bool) {
+	v = x.res(v)
+	cv, ok := v.(*ssa.Convert)
+	if !ok {
+		return nil, 0, false
+	}
+	if bits, _, isInt := intBits(cv.Type()); !isInt || bits != 8 {
+		return nil, 0, false
+	}
+	inner := x.res(cv.X)
+	for d := 0; d < 4; d++ {
+		b, isB := inner.(*ssa.BinOp)
+		if !isB {
+			break
+		}
+		if b.Op == token.AND {
+			if k, isK := constI(b.Y); isK && k == 0xFF {
+				inner = x.res(b.X)
+				continue
+			}
+			if k, isK := constI(b.X); isK && k == 0xFF {
+				inner = x.res(b.Y)
+				continue
+			}
+		}
+		break
+	}
+	shift := int64(0)
+	if b, isB := inner.(*ssa.BinOp); isB && b.Op == token.SHR {
+		k, isK := constI(b.Y)
+		if !isK || k < 0 || k%8 != 0 {
+			return nil, 0, false
+		}
+		shift = k
+		inner = x.res(b.X)
+		// an AND 0xFF may also sit outside the conversion chain; a widening
+		// conversion below the shift is value-preserving
+	}
+	for {
+		c2, isC := inner.(*ssa.Convert)
+		if !isC || !valuePreserving(c2.X.Type(), c2.Type()) {
+			break
+		}
+		inner = x.res(c2.X)
+	}
+	if _, _, isInt := intBits(inner.Type()); !isInt {
+		return nil, 0, false
+	}
+	return inner, shift, true
+}
+
+// mergeByteLanes folds a run of single bytes that together are ALL the bytes
+// of one integer, most significant first (byte(v>>8), byte(v)) or least
+// significant first, into the one fixed-width atom binary.{Big,Little}Endian
+// would have produced.
+func (x *X) mergeByteLanes(as []Atom) []Atom {
+	var out []Atom
+	for i := 0; i < len(as); i++ {
+		a := as[i]
+		if a.Kind == "repeat" {
+			a.Body = x.mergeByteLanes(a.Body)
+			out = append(out, a)
+			continue
+		}
+		if a.Kind != "fixed" || a.Width != 1 || a.Val == nil {
+			out = append(out, a)
+			continue
+		}
+		v0, s0, ok := x.byteLaneOf(a.Val)
+		if !ok {
+			out = append(out, a)
+			continue
+		}
+		bits, _, _ := intBits(v0.Type())
+		k := bits / 8
+		if k < 2 || i+k > len(as) {
+			out = append(out, a)
+			continue
+		}
+		order := ""
+		switch s0 {
+		case int64(bits - 8):
+			order = "BE"
+		case 0:
+			order = "LE"
+		}
+		good := order != ""
+		for j := 1; j < k && good; j++ {
+			b := as[i+j]
+			if b.Kind != "fixed" || b.Width != 1 || b.Val == nil || b.Cond != a.Cond {
+				good = false
+				break
+			}
+			vj, sj, ok := x.byteLaneOf(b.Val)
+			want := int64(bits-8) - int64(8*j)
+			if order == "LE" {
+				want = int64(8 * j)
+			}
+			if !ok || sj != want || x.Rep(vj) != x.Rep(v0) {
+				good = false
+			}
+		}
+		if !good {
+			out = append(out, a)
+			continue
+		}
+		at := a.At
+		if at == nil {
+			out = append(out, a)
+			continue
+		}
+		na := x.valueAtom(v0, k, order, at)
+		na.Pos, na.Cond = a.Pos, a.Cond
+		out = append(out, na)
+		i += k - 1
 	}
 	return out
 }
